@@ -15,7 +15,7 @@ Part 2 (codec differential): every message the implementation encodes decodes
 to the same fields by the independent decoder and vice versa.'''
 import itertools
 
-from ..peer_world import PeerWorld
+from ..peer_world import PeerWorld, PATH, IFACE
 from ..world import Violation, HarnessError
 from ..oracle import tcpclv4 as T
 from ..evidence import graph_evidence
@@ -374,6 +374,67 @@ def run_codec(params, known):
     return dict(name='codec', evaluations=count, violations=violations, known=[], samples=samples)
 
 
+def _short_write_run(role, size, seg, cap):
+    body = bytes((i * 5 + 1) & 0xFF for i in range(size))
+    w = PeerWorld(dict(role=role, seg_mru=64, tx_init=seg, queued=()))
+    w.conns[0].capacity = cap
+    w.peer_write(T.enc_contact(0) + T.enc_sess_init(0, seg, 1000, b'dtn://p/'))
+    w.quiesce()
+    res = w.bus_call(w.proc, PATH, 'send_bundle_data', body, iface=IFACE)
+    w.quiesce()
+    w.peer_write(T.enc_ack(3, 1, size))
+    w.quiesce()
+    w.peer_write(T.enc_sess_term(0, 3))
+    w.quiesce()
+    return w
+
+
+def run_short_writes(params, known):
+    """The octets the endpoint puts on the wire when its socket takes only `cap` octets per send() (every write is
+    short; the scripted peer reads after each callback): they must be the same octets as with a socket that takes
+    everything at once, and the independent decoder must frame them completely.  Roles x queued bundle sizes x
+    segment sizes x cap, with the peer acknowledging and then terminating."""
+    violations = []
+    kinds = set()
+    count = 0
+    keys = set()
+
+    def viol(kind, detail, case):
+        if kind in kinds:
+            return
+        kinds.add(kind)
+        v = Violation(PROP, 'short-writes', kind, dict(), '%r: %s' % (case, detail)).as_dict()
+        v['case'] = case
+        violations.append(v)
+
+
+    for role in ('passive', 'active'):
+        for (size, seg) in ((5, 64), (40, 64), (40, 4), (130, 64)):
+            ref = _short_write_run(role, size, seg, None)
+            for cap in (1, 2, 3, 7, 16, 63):
+                count += 1
+                case = dict(role=role, bundle=size, segment_size=seg, socket_takes=cap)
+                w = _short_write_run(role, size, seg, cap)
+                if w.escaped:
+                    viol('exception-escaped-callback', '%s: %s' % (w.escaped[-1][0], w.escaped[-1][2]), case)
+                    continue
+                try:
+                    (msgs, rest) = T.parse_all(w.out_octets, with_contact=True)
+                except Exception as err:
+                    viol('independent-decoder-rejects', '%s; wire %s' % (err, w.out_octets.hex()[:160]), case)
+                    continue
+                if rest:
+                    viol('independent-decoder-framing', '%d octets left after %d messages' % (len(rest), len(msgs)), case)
+                    continue
+                if w.out_octets != ref.out_octets:
+                    viol('wire-differs-under-short-writes', 'with short writes %s, with full writes %s'
+                         % (w.out_octets.hex()[:200], ref.out_octets.hex()[:200]), case)
+                    continue
+                keys.add('%s/%d/%d/%d/%d' % (role, size, seg, cap, len(msgs)))
+    return dict(name=params['name'], evaluations=count, nontrivial_keys=sorted(keys), violations=violations, known=[], samples=[])
+
+
+
 # ---------------------------------------------------------------------------
 # long streams, boundary-directed cuts
 
@@ -468,6 +529,7 @@ def scenarios(tier):
     for size in sizes:
         out.append(dict(name='long-%d' % size, kind='enum', runner='run_long',
                         params=dict(name='long-%d' % size, size=size, nodeid=300 if size == 256 else 5), weight=10 ** 5))
+    out.append(dict(name='short-writes', kind='enum', runner='run_short_writes', params=dict(name='short-writes'), weight=10 ** 4))
     out.append(dict(name='adversarial-pairs', kind='enum', runner='run_same_read', params=dict(name='adversarial-pairs', prop=PROP), weight=10 ** 5))
     for fit in (10240, 20480):
         out.append(dict(name='long-fit-%d' % fit, kind='enum', runner='run_long',
@@ -476,6 +538,7 @@ def scenarios(tier):
 
 
 ASSUMPTIONS = [
+    'short writes: the socket takes 1 ... 63 octets per send() and the peer reads after every callback; the octets on the wire are compared with those of a socket taking everything (same peer input), both roles, bundles of 5 ... 130 octets in segments of 4 / 64',
     'adversarial pairs: every contact-phase message followed by any message of the C17 alphabet, and every ordered pair of in-session messages of it, in one read and in two: same octets written, same signals, same closing',
     'long streams also with a segment message of exactly 10240 / 20480 octets (the size of one / two reads of the endpoint), delivered in one piece among others',
     'one real endpoint per role; the peer is scripted with octets produced by the independent encoder',
@@ -514,6 +577,16 @@ def evidence(tier, seed, scens, results, wall_s):
 
 def replay_case(body, verbose=False):
     case = body['case']
+    if 'socket_takes' in case:
+        ref = _short_write_run(case['role'], case['bundle'], case['segment_size'], None)
+        w = _short_write_run(case['role'], case['bundle'], case['segment_size'], case['socket_takes'])
+        print('  wire with full writes : %s' % ref.out_octets.hex())
+        print('  wire with short writes: %s' % w.out_octets.hex())
+        for esc in w.escaped:
+            print('  ESCAPED %s: %s' % (esc[0], esc[2]))
+        same = w.out_octets == ref.out_octets and not w.escaped
+        print('replay: %s' % ('same octets' if same else 'violation reproduced: %s' % body['violation']['kind']))
+        return 0 if same else 1
     if 'long' in case:
         print('long-stream case: rerun the check with --only %s' % case['long']['name'])
         return 1
